@@ -349,31 +349,43 @@ theorem sim_handleMethod (cfg : Config) (x : Ctx) (p : Peer) (req : Json) (m : B
   have fr : ∀ y : Ctx, Frame x y → ∃ ls : List Lbl, ls.length ≤ 1 ∧ (∀ l ∈ ls, IssueLbl p.conn l) ∧
       Steps ls (rs x) (rs y) := fun y h => ⟨[], by simp, by simp, h.rs_eq⟩
   unfold handleMethod
-  split
-  · exact fr _ (frame_changeState ..)
-  split
-  · exact sim_setOrCall cfg x p req true hp
-  split
-  · exact sim_setOrCall cfg x p req false hp
-  split
-  · exact fr _ (frame_addElement ..)
-  split
-  · exact fr _ (frame_removeElementReq ..)
-  split
-  · exact fr _ (frame_fetchReq ..)
-  split
-  · exact fr _ (frame_unfetchReq ..)
-  split
-  · exact fr _ (frame_getReq ..)
-  split
-  · exact fr _ (frame_configReq ..)
-  split
-  · exact fr _ (frame_infoReq ..)
-  split
-  · exact fr _ (frame_authenticateReq ..)
-  split
-  · exact fr _ (frame_passwdReq ..)
-  · exact fr _ (Frame.refl x)
+  by_cases h1 : (m == k "change") = true
+  · rw [if_pos h1]; exact fr _ (frame_changeState ..)
+  rw [if_neg h1]
+  by_cases h2 : (m == k "set") = true
+  · rw [if_pos h2]; exact sim_setOrCall cfg x p req true hp
+  rw [if_neg h2]
+  by_cases h3 : (m == k "call") = true
+  · rw [if_pos h3]; exact sim_setOrCall cfg x p req false hp
+  rw [if_neg h3]
+  by_cases h4 : (m == k "add") = true
+  · rw [if_pos h4]; exact fr _ (frame_addElement ..)
+  rw [if_neg h4]
+  by_cases h5 : (m == k "remove") = true
+  · rw [if_pos h5]; exact fr _ (frame_removeElementReq ..)
+  rw [if_neg h5]
+  by_cases h6 : (m == k "fetch") = true
+  · rw [if_pos h6]; exact fr _ (frame_fetchReq ..)
+  rw [if_neg h6]
+  by_cases h7 : (m == k "unfetch") = true
+  · rw [if_pos h7]; exact fr _ (frame_unfetchReq ..)
+  rw [if_neg h7]
+  by_cases h8 : (m == k "get") = true
+  · rw [if_pos h8]; exact fr _ (frame_getReq ..)
+  rw [if_neg h8]
+  by_cases h9 : (m == k "config") = true
+  · rw [if_pos h9]; exact fr _ (frame_configReq ..)
+  rw [if_neg h9]
+  by_cases h10 : (m == k "info") = true
+  · rw [if_pos h10]; exact fr _ (frame_infoReq ..)
+  rw [if_neg h10]
+  by_cases h11 : (m == k "authenticate") = true
+  · rw [if_pos h11]; exact fr _ (frame_authenticateReq ..)
+  rw [if_neg h11]
+  by_cases h12 : (m == k "passwd") = true
+  · rw [if_pos h12]; exact fr _ (frame_passwdReq ..)
+  rw [if_neg h12]
+  exact fr _ (Frame.refl x)
 
 theorem sim_parseJsonRpc (cfg : Config) (x : Ctx) (c : Nat) (req : Json) :
     ∃ ls, ls.length ≤ 1 ∧ (∀ l ∈ ls, LblFrom c (fun rid => replyTo rid req) l) ∧
